@@ -10,7 +10,7 @@ META = dict(
               "failing phase in {none, initialize, main, finalize} x failing producer x ending in {sources exhausted / "
               "idle stop, stop() from a handler, handler error with stop_on_handler_exceptions, external cancellation "
               "at 0 / 15 / 50 ms} x handler duration in {0, 30 ms, 5 s}; max_concurrent symbolic in 1..3",
-        thorough="3 producers"),
+        thorough="adds 1 and 3 producers, max_concurrent up to 5"),
     stubs=["basana.core.dt.utc_now -> virtual clock", "VLoop", "logging disabled (the record factory is called "
            "directly to observe it)"],
     assumptions=["one fault per run", "every path corresponds to one fault script; the solver's contribution is the "
@@ -22,7 +22,13 @@ META = dict(
 
 
 def jobs(tier):
-    n = 2 if tier == "quick" else 3
     big = dict(split=300, max_paths=2000000, validate_every=100, sample_every=200)
-    return [Job("backtesting", "lifecycle", dict(kind="backtesting", nprod=n), **big),
-            Job("realtime", "lifecycle", dict(kind="realtime", nprod=n), **big)]
+    js = [Job("backtesting", "lifecycle", dict(kind="backtesting", nprod=2), **big),
+          Job("realtime", "lifecycle", dict(kind="realtime", nprod=2), **big)]
+    if tier == "thorough":
+        for n, mc in ((3, 3), (3, 5), (1, 2)):
+            js.append(Job("backtesting %d producers max_mc=%d" % (n, mc), "lifecycle",
+                          dict(kind="backtesting", nprod=n, max_mc=mc), **big))
+            js.append(Job("realtime %d producers max_mc=%d" % (n, mc), "lifecycle",
+                          dict(kind="realtime", nprod=n, max_mc=mc), **big))
+    return js
